@@ -509,7 +509,11 @@ impl<I: Interner> RenderAsRust<I> for FnDefDatum<I> {
         if let chalk_ir::Safety::Unsafe = self.sig.safety {
             write!(f, "unsafe ")?;
         }
-        write!(f, "fn {}", s.db().fn_def_name(self.id))?;
+        write!(
+            f,
+            "fn {}",
+            s.alias_for_id_name(self.id.0, s.db().fn_def_name(self.id))
+        )?;
 
         // binders
         // fn foo<T>(arg: u32, arg2: T) -> Result<T> where T: Bar
